@@ -8,6 +8,14 @@
 (* VIEW) records the actions; every Stabilise entry carries the expected   *)
 (* output and user-function call log of each observed operator.  One       *)
 (* REPLAY line per maximal behaviour (all SetInputs used, stabilised).     *)
+(* For a chained instance (chain_fm_map, chain_fm_fold) the expected       *)
+(* output is the one of the second stage and the call log holds the calls  *)
+(* of both stages (role "f" = first stage, "g" / "add" / "remove" = second *)
+(* stage): three SetInputs suffice for  init; edit that the first stage    *)
+(* announces although the intermediate map stays equal (second stage runs  *)
+(* on an empty diff); real edit (second stage must still know its input).  *)
+(* For the plain sums (fold_sum, fold_sum_upd) two SetInputs reach a        *)
+(* non-empty map that folds to init, the third one is the edit after it.   *)
 (***************************************************************************)
 EXTENDS MapOps, Json
 
